@@ -46,6 +46,12 @@ def obligation(prog, enums, structs, kind, policy_sets, n_rows=2, only=None):
     def get_client_id(ex, c):
         return Opaque("Blob", id=ex.env["client"])
 
+    def get_clientid_option(ex, c):
+        # option 61 itself: present (then it IS the client identifier) or absent (the identifier is the hardware address)
+        if "has_opt61" not in ex.env:
+            ex.env["has_opt61"] = ex.choose([None, None]) == 0
+        return some(Opaque("Blob", id=ex.env["client"])) if ex.env["has_opt61"] else NONE()
+
     def build_default_config(ex, c):
         return Opaque("Policy")
 
@@ -89,7 +95,7 @@ def obligation(prog, enums, structs, kind, policy_sets, n_rows=2, only=None):
         ex.env["alloc_args"] = c.args
         return ex.call_fn(real_alloc, c.args)
     summ.update({"DhcpOptions::get_messagetype": get_messagetype, "DhcpOptions::get_serverid": get_serverid,
-                 "DhcpOptions::get_address_request": get_address_request, "Dhcp::get_client_id": get_client_id,
+                 "DhcpOptions::get_address_request": get_address_request, "Dhcp::get_client_id": get_client_id, "DhcpOptions::get_clientid": get_clientid_option,
                  "build_default_config": build_default_config, "<DhcpOptions as Serialise>::serialise": req_serialise,
                  "apply_policies": apply_policies, "Pool::allocate_address": allocate})
     ex = Exec(prog, summ, enums, max_unroll=8)
@@ -219,7 +225,7 @@ def obligation(prog, enums, structs, kind, policy_sets, n_rows=2, only=None):
                     claims.append(("a named address is handed to the pool", z3.Not(has)))
                 cid = deref(ex, a[1])
                 claims.append(("pool is asked on behalf of the client identifier (option 61, else hardware address)",
-                               z3.BoolVal(isinstance(cid, Opaque) and cid.kind == "Blob")))
+                               (cid.id == env["client"]) if (isinstance(cid, Opaque) and cid.kind == "Blob" and not getattr(cid, "empty", False)) else z3.BoolVal(False)))
         if env.get("policy_order"):
             claims.append(("top-level defaults (the generated base policy) are applied first and dhcp-policies after them, so that policies override the defaults",
                            z3.BoolVal(env["policy_order"] == ["base", "conf"])))
